@@ -49,8 +49,11 @@ type Case struct {
 	Fwd    bool     `json:"fwd"`
 	Exp    AObs     `json:"exp"`
 	Preds  []AObs   `json:"preds"` // predicted for the code as transcribed: under Cut, then under each of Alts
-	Agree  bool     `json:"agree"`
-	Causes []string `json:"causes"`
+	// Regress: per retired switch of InProc.tla (a repaired deviation) that would change the result of this case, the
+	// results predicted with it (under Cut, then under each of Alts)
+	Regress map[string][]AObs `json:"regress"`
+	Agree   bool              `json:"agree"`
+	Causes  []string          `json:"causes"`
 }
 
 type CaseFile struct {
@@ -76,19 +79,21 @@ type Obs struct {
 }
 
 type CaseResult struct {
-	Idx        int      `json:"idx"`
-	ID         string   `json:"id"`
-	OK         bool     `json:"ok"`
-	Kind       string   `json:"kind,omitempty"` // crash | hang | error | diff | partition | plan
-	Detail     string   `json:"detail,omitempty"`
-	Obs        *Obs     `json:"obs,omitempty"`
-	MatchPred  bool     `json:"match_pred"`
-	Partitions int      `json:"partitions"`
-	PartObs    []*Obs   `json:"part_obs,omitempty"`
-	PartCuts   [][]int  `json:"part_cuts,omitempty"`
-	Plan       string   `json:"plan,omitempty"`
-	Stderr     string   `json:"stderr,omitempty"`
-	DiffKinds  []string `json:"diff_kinds,omitempty"`
+	Idx       int    `json:"idx"`
+	ID        string `json:"id"`
+	OK        bool   `json:"ok"`
+	Kind      string `json:"kind,omitempty"` // crash | hang | error | diff | partition | plan
+	Detail    string `json:"detail,omitempty"`
+	Obs       *Obs   `json:"obs,omitempty"`
+	MatchPred bool   `json:"match_pred"`
+	// MatchRetired: the retired switch whose predictions the chain matched under every partition (a regression)
+	MatchRetired string   `json:"match_retired,omitempty"`
+	Partitions   int      `json:"partitions"`
+	PartObs      []*Obs   `json:"part_obs,omitempty"`
+	PartCuts     [][]int  `json:"part_cuts,omitempty"`
+	Plan         string   `json:"plan,omitempty"`
+	Stderr       string   `json:"stderr,omitempty"`
+	DiffKinds    []string `json:"diff_kinds,omitempty"`
 }
 
 const baseS = int64(1700000000) // aligned to every duration used
@@ -390,12 +395,35 @@ func runCase(idx int, c *Case, cf *CaseFile, rev map[string]string) *CaseResult 
 	// the same entries under the other partitions of the case
 	alts := c.Alts
 	partDep := false
+	allObs := []*Obs{o}
+	defer func() {
+		if r.OK || r.MatchPred || r.Kind == "plan" {
+			return
+		}
+		var qs []string
+		for q := range c.Regress {
+			qs = append(qs, q)
+		}
+		sort.Strings(qs)
+		for _, q := range qs {
+			ps := c.Regress[q]
+			same := len(ps) == len(allObs) && len(allObs) == 1+len(c.Alts)
+			for i := 0; same && i < len(ps); i++ {
+				same = sameObsExp(allObs[i], ps[i], c.Metric)
+			}
+			if same {
+				r.MatchRetired = q
+				return
+			}
+		}
+	}()
 	for ai, cut := range alts {
 		o2, _, err := run(cut)
 		if err != nil {
 			r.Kind, r.Detail = "plan", err.Error()
 			return r
 		}
+		allObs = append(allObs, o2)
 		r.Partitions++
 		if r.MatchPred && !sameObsExp(o2, c.Preds[1+ai], c.Metric) {
 			r.MatchPred = false
@@ -619,6 +647,20 @@ func chainMain(fs *flag.FlagSet, args []string) error {
 			for _, p := range c.Preds {
 				if p.K == "crash" {
 					r.MatchPred = true
+				}
+			}
+			if !r.MatchPred {
+				var qs []string
+				for q := range c.Regress {
+					qs = append(qs, q)
+				}
+				sort.Strings(qs)
+				for _, q := range qs {
+					for _, p := range c.Regress[q] {
+						if p.K == "crash" && r.MatchRetired == "" {
+							r.MatchRetired = q
+						}
+					}
 				}
 			}
 		}
